@@ -67,3 +67,16 @@ Example C26_ex :
                            mkStmt [lab [97] 12] (NInstr AHALT) 14 18; mkStmt [lab [65] 19] (NInstr AHALT) 21 25;
                            mkStmt [] (NDir DEnd) 26 30 ] = AErr OverlappingLabels [(12, 13); (19, 20)].
 Proof. vm_compute. repeat split; reflexivity. Qed.
+
+(* ---------- linker half (proofs/LinkErrProofs.v) ---------- *)
+From Model Require Import Link.
+From Proofs Require Import LinkErrProofs.
+
+(* every link error carries a non-empty span list (so `first` is total) with ordered spans *)
+Theorem C26_link_error_nonempty : forall a b k sp, Link.link a b = LErr k sp -> sp <> nil.
+Proof. intros a b k sp H. exact (proj1 (C26_link_nonempty a b k sp H)). Qed.
+Print Assumptions C26_link_error_nonempty.
+
+Theorem C26_link_error_spans_ordered : forall a b k sp s, Link.link a b = LErr k sp -> In s sp -> fst s <= snd s.
+Proof. exact C26_link_spans_ordered. Qed.
+Print Assumptions C26_link_error_spans_ordered.
